@@ -48,7 +48,7 @@ MCMaxOps   == IF Depth = "gen" THEN 12 ELSE IF Depth = "deep" THEN (IF Shape = "
    two client CA file operations out of three are followed by a settle; a race starts only at every third operation *)
 MustSettle == js.pend /\ hist # <<>> /\ hist[Len(hist)].op = "wca" /\ nops % 3 # 0
 GenNext == /\ Next
-           /\ (MustSettle /\ hist' # hist) => hist'[Len(hist')].op = "settle"
+           /\ MustSettle => (batch' = batch /\ (hist' = hist \/ hist'[Len(hist')].op = "settle"))
            /\ (batch'.on /\ batch'.race /\ ~batch.on) => nops % 3 = 0
 GenSpec == Init /\ [][GenNext]_vars
 
